@@ -1,13 +1,135 @@
+import LA.Model.ReasmConc
 import LA.Drv.Util
 
-/-! line-protocol commands of the Conc family (filled in with its model). -/
+/-!
+Line-protocol command of the Conc family (property C11):
+
+  conc run <maxInFlight> <timeoutNs> <thread> <thread> … | <schedule>
+
+  thread   := <ops> { "/" <k> "=" <ops> }      main program, then the scripts of the thread's
+                                                k-th Stream callback (k counts every callback
+                                                made on that thread from 0, ReassemblyComplete
+                                                and EventsLost alike, all nesting levels);
+                                                callbacks without a script do nothing
+  ops      := "-" | <op> { "," <op> }
+  op       := "p" <id> ":" <seq> ":" <typ>      PushMessage of message <id>
+            | "m"                               Maintain
+            | "c"                               Close
+  schedule := "-" | <tid> { "," <tid> }         thread ids, from 0 in the order given
+
+Every clock read is 0 (the harness uses timeouts of ±1h, for which the clock is irrelevant).
+
+Reply (one line):
+  start=<p,…> pts=<p,…> ret=<r,…>/<r,…>/… cb=<tid>:g:<id,…>;<tid>:lost:<n>;… end=<p,…>
+  start the yield point at which every thread waits initially (0: empty program)
+  pts   per schedule entry: the yield point (numbers of /repo/verif_on.go) at which the picked
+        thread waits after its step, 0 if it finished, "x" if the pick was skipped (no such
+        unfinished thread)
+  ret   per thread, in order of return: P (PushMessage returned), M / Me (Maintain nil / error),
+        C / Ce (Close nil / error)
+  cb    the global callback trace in order
+  end   the yield point of every thread at the end (all 0 = terminal)
+"-" stands for an empty list.  Anything malformed → bad-op.
+-/
 namespace LA.Drv.Conc
+open LA LA.ReasmConc
 
 structure State where
   dummy : Unit := ()
 
 def init : State := {}
 
-def cmd (s : State) (_args : List String) : State × String := (s, "bad-op")
+def parseOp (s : String) : Option Op :=
+  if s == "m" then some (.maintain 0)
+  else if s == "c" then some .close
+  else match s.toList with
+    | 'p' :: rest =>
+      match (String.ofList rest).splitOn ":" with
+      | [id, seq, typ] =>
+        match id.toNat?, seq.toNat?, typ.toNat? with
+        | some id, some seq, some typ =>
+          if seq < 4294967296 && typ < 65536 then some (.push ⟨id, seq, typ⟩ 0 0) else none
+        | _, _, _ => none
+      | _ => none
+    | _ => none
+
+def parseOps (s : String) : Option (List Op) :=
+  if s == "-" then some [] else (s.splitOn ",").mapM parseOp
+
+def parseScript (s : String) : Option (Nat × List Op) :=
+  match s.splitOn "=" with
+  | [k, ops] =>
+    match k.toNat?, parseOps ops with
+    | some k, some ops => some (k, ops)
+    | _, _ => none
+  | _ => none
+
+def lookupScript (tbl : List (Nat × List Op)) (k : Nat) : List Op :=
+  match tbl.find? (fun p => p.1 == k) with
+  | some p => p.2
+  | none => []
+
+def parseThread (s : String) : Option Prog :=
+  match s.splitOn "/" with
+  | [] => none
+  | main :: scripts =>
+    match parseOps main, scripts.mapM parseScript with
+    | some main, some tbl => some { main := main, cbs := fun k _ => lookupScript tbl k }
+    | _, _ => none
+
+def parseSched (s : String) : Option (List Nat) :=
+  if s == "-" then some [] else (s.splitOn ",").mapM (·.toNat?)
+
+def commaOr (l : List String) : String := if l.isEmpty then "-" else ",".intercalate l
+
+def renderRet : Ret → String
+  | .push => "P" | .maintOk => "M" | .maintErr => "Me" | .closeOk => "C" | .closeErr => "Ce"
+
+def renderCb : Ev → Option String
+  | .cb i (.group ms) => some (toString i ++ ":g:" ++ ",".intercalate (ms.map (fun m => toString m.id)))
+  | .cb i (.lost n) => some (toString i ++ ":lost:" ++ toString n)
+  | .cb i .err => some (toString i ++ ":err")
+  | _ => none
+
+def pointOf (s : Sys) (i : Nat) : Nat :=
+  match s.threads[i]? with
+  | some t => t.point
+  | none => 0
+
+/-- run the schedule, recording after every pick where the picked thread now waits. -/
+def runPts (s : Sys) : List Nat → List String → Sys × List String
+  | [], acc => (s, acc.reverse)
+  | i :: is, acc =>
+    match step s i with
+    | some s' => runPts s' is (toString (pointOf s' i) :: acc)
+    | none => runPts s is ("x" :: acc)
+
+def render (s0 s : Sys) (pts : List String) : String :=
+  let cbs := s.trace.reverse.filterMap renderCb
+  "start=" ++ commaOr (s0.threads.map (fun t => toString t.point)) ++
+  " pts=" ++ commaOr pts ++
+  " ret=" ++ "/".intercalate (s.threads.map (fun t => commaOr (t.rets.map renderRet))) ++
+  " cb=" ++ (if cbs.isEmpty then "-" else ";".intercalate cbs) ++
+  " end=" ++ commaOr (s.threads.map (fun t => toString t.point))
+
+def splitBar (args : List String) : Option (List String × List String) :=
+  match args.span (· != "|") with
+  | (a, _ :: b) => some (a, b)
+  | _ => none
+
+def cmd (s : State) (args : List String) : State × String :=
+  match args with
+  | "run" :: m :: t :: rest =>
+    match m.toInt?, t.toInt?, splitBar rest with
+    | some m, some t, some (threads, [sched]) =>
+      match threads.mapM parseThread, parseSched sched with
+      | some progs, some sched =>
+        if progs.isEmpty then (s, "bad-op") else
+        let s0 := LA.ReasmConc.init m t progs
+        let r := runPts s0 sched []
+        (s, render s0 r.1 r.2)
+      | _, _ => (s, "bad-op")
+    | _, _, _ => (s, "bad-op")
+  | _ => (s, "bad-op")
 
 end LA.Drv.Conc
